@@ -32,3 +32,80 @@ func TestVerifC13Regressions(t *testing.T) {
 		},
 	})
 }
+
+func TestVerifC01Composite(t *testing.T) {
+	vs.Run(t, "C01", func(c *vs.Case) error { return vw.PropC01(c, compositeFactory, "composite") })
+}
+
+func TestVerifC01Regressions(t *testing.T) {
+	vs.RunFixed(t, "C01", map[string]func() error{
+		// children created with dynamic apply carry the last-applied annotation; switching the
+		// controller to server-side apply must strip it and converge, not fail every sync
+		"ssa-takes-over-dynamic-apply-children": func() error {
+			scn := vw.FixedScn("configmaps", "InPlace", []string{"c0"}, 1)
+			env, err := vw.NewEnv(scn, compositeFactory)
+			if err != nil {
+				return err
+			}
+			env.SyncFresh()
+			env.SyncFresh()
+			scn.Cfg.SSA = true
+			if err := env.Restart(); err != nil {
+				return err
+			}
+			var last *vw.SyncTrace
+			for i := 0; i < 3; i++ {
+				last = env.SyncFresh()
+				if last.Panic != "" {
+					return vs.Violf("C01/panic", "%s", last.Panic)
+				}
+			}
+			if last.Err != nil {
+				return vs.Violf("C01/sync-error-at-fixpoint", "server-side apply over a child that carries the last-applied annotation still fails after 3 syncs: %v", last.Err)
+			}
+			return nil
+		},
+	})
+}
+
+func TestVerifC08Regressions(t *testing.T) {
+	rollout := func(method string) func() error {
+		return func() error {
+			scn := vw.FixedScn("widgets", method, []string{"w0", "w1", "w2"}, 1)
+			env, err := vw.NewEnv(scn, compositeFactory)
+			if err != nil {
+				return err
+			}
+			for i := 0; i < 3; i++ {
+				env.SyncFresh()
+				env.MakeHealthy()
+			}
+			env.W.Sim.ExtUpdate("things", "ns1", "p1", func(obj map[string]any) {
+				obj["spec"].(map[string]any)["template"].(map[string]any)["v"] = "v2"
+			})
+			var last *vw.SyncTrace
+			for i := 0; i < 3*3+6; i++ {
+				env.MakeHealthy()
+				last = env.SyncFresh()
+				if last.Panic != "" {
+					return vs.Violf("C08/panic", "%s", last.Panic)
+				}
+			}
+			for _, name := range []string{"w0", "w1", "w2"} {
+				w := env.W.Sim.Get("widgets", "ns1", name)
+				if w == nil || w["spec"].(map[string]any)["v"] != "v2" {
+					st, _ := env.Parent()["status"].(map[string]any)
+					return vs.Violf("C08/rollout-stalled", "healthy %s rollout of 3 namespaced children did not complete within 15 syncs: %s is %v; parent status %v", method, name, w["spec"], st)
+				}
+			}
+			if n := len(env.W.Sim.ListAll("controllerrevisions")); n != 1 {
+				return vs.Violf("C08/revisions-not-pruned", "%d ControllerRevisions remain after the rollout, want 1", n)
+			}
+			return nil
+		}
+	}
+	vs.RunFixed(t, "C08", map[string]func() error{
+		"namespaced-rollout-inplace-completes":  rollout("RollingInPlace"),
+		"namespaced-rollout-recreate-completes": rollout("RollingRecreate"),
+	})
+}
